@@ -740,4 +740,4 @@ Qed.
 End Infix.
 
 Check T1_reduce.
-Print Assumptions T1_reduce.
+
